@@ -191,6 +191,22 @@ impl Drop for MemoryManagerInner {
         for val in self.tofree.drain(..) {
             val.delete();
         }
+        // tokens of handles that never unregistered
+        for token in self.tokens.drain(..) {
+            alloc::deallocate(token as *mut MemToken, 1);
+        }
+    }
+}
+
+impl Drop for MemoryManager {
+    fn drop(&mut self) {
+        // Nothing can reference retired memory any more: free what was still waiting
+        // for a reclamation cycle
+        if let Ok(mut waiting) = self.wait_to_free.lock() {
+            for val in waiting.drain(..) {
+                val.delete();
+            }
+        }
     }
 }
 
